@@ -137,6 +137,16 @@ def real_parsed(w, st):
     return p
 
 
+def as_loaded(parsed):
+    """what loading for sync makes of a content: the past hashes of CHG blocks and DELETED entries are forgotten (clear_past_hash)"""
+    for d in parsed['disks']:
+        if d is not None:
+            for f in d['files']:
+                f['blocks'] = [(s, p, 'I' if s == 'g' else h) for (s, p, h) in f['blocks']]
+            d['deleted'] = {p: 'I' for p in d['deleted']}
+    return parsed
+
+
 def forget_unusable_inodes(H, st0, parsed):
     """on a disk whose recorded inodes are not usable (no / changed UUID) the tool keeps the inode numbers only in memory and does not
     save the content file for their sake (scan.c: "we don't even save them"): they are not part of the comparison"""
@@ -181,6 +191,7 @@ def sync_with_model(H, st0, lst, opts, nocopy=False, prehash=False, expect_fail=
     base_toks = w.ser_base()
     st1 = None
     killed = False
+    cb0 = w.arr.content_bytes()
     if not prehash and not nokill:
         r0 = w.run('sync', *extra, shim_env={'VSHIM_KILL_ON': 'pwrite:.parity:1:before'}); H.ncmd += 1
         killed = r0.rc in (-9, 137)
@@ -199,7 +210,13 @@ def sync_with_model(H, st0, lst, opts, nocopy=False, prehash=False, expect_fail=
         if m['aborted']:
             note('drift_abort', 'the scan model reaches an os_abort path of scan.c, the real sync exits %d' % r0.rc, request=m['request'][:6000])
             m = None
-        d = first_diff(forget_unusable_inodes(H, st0, m['post' if killed else 'final']), forget_unusable_inodes(H, st0, real_parsed(w, st1)), w.names) if m else None
+        real1 = forget_unusable_inodes(H, st0, real_parsed(w, st1))
+        if w.arr.content_bytes() == cb0:
+            # nothing asked for a save: the file still holds what the PREVIOUS run wrote; the model speaks about the state in memory,
+            # which is that content as loaded (past hashes cleared)
+            real1 = as_loaded(real1)
+            H.stats['not_saved_runs'] = H.stats.get('not_saved_runs', 0) + 1
+        d = first_diff(forget_unusable_inodes(H, st0, m['post' if killed else 'final']), real1, w.names) if m else None
         if d:
             note('drift_scan', '%s predicted by the scan model differs from the real one: %s'
                  % ('post-scan content (states, positions, past hashes)' if killed else 'content after a sync that needed no parity write', d),
@@ -209,6 +226,7 @@ def sync_with_model(H, st0, lst, opts, nocopy=False, prehash=False, expect_fail=
         c_toks = w.ser_content(st1)
         use_toks = usable_toks(H, st1)
         base_toks = w.ser_base()
+    cb1 = w.arr.content_bytes()
     r = w.run('sync', *(list(opts) + extra + list(real_opts))); H.ncmd += 1
     if fs_after:
         fs_toks = w.ser_fs()          # the data disks as the sync loop found them (changed after the scan by --test-run)
@@ -225,7 +243,11 @@ def sync_with_model(H, st0, lst, opts, nocopy=False, prehash=False, expect_fail=
     if m['aborted']:
         note('drift_abort', 'the scan model reaches an os_abort path of scan.c, the real sync exits %d' % r.rc, request=m['request'][:6000])
         return r
-    d = first_diff(forget_unusable_inodes(H, st0, m['final']), forget_unusable_inodes(H, st0, real_parsed(w, st2)), w.names)
+    real2 = forget_unusable_inodes(H, st0, real_parsed(w, st2))
+    if w.arr.content_bytes() == cb1:
+        real2 = as_loaded(real2)
+        H.stats['not_saved_runs'] = H.stats.get('not_saved_runs', 0) + 1
+    d = first_diff(forget_unusable_inodes(H, st0, m['final']), real2, w.names)
     if d:
         note('drift_sync', 'content after `sync %s` predicted by scan model + sync loop model differs from the real one: %s' % (' '.join(list(opts) + extra), d),
              model=m['final'], real=real_parsed(w, st2), request=m['request'][:8000])
